@@ -170,3 +170,85 @@ pub fn record(args: &[String]) -> i32 {
     println!("{}", json!({"events": n, "runs": run, "worlds": nworld}));
     0
 }
+
+// ------------------------------------------------------------------ costs of user words computed at load time
+/// `vh c02-usercost <out> --seed S --worlds N`: generated system dictionary + 1..3 user dictionaries, some of whose words
+/// declare the cost -32768; the dictionary stack is loaded with the recorder installed, so the analyses made by the loader
+/// and its set_cost mutation points are in the trace, in program order.
+pub fn usercost(args: &[String]) -> i32 {
+    quiet_panics();
+    let out = &args[0];
+    let seed = arg_u64(args, "--seed", 1);
+    let nworlds = arg_u64(args, "--worlds", 40) as usize;
+    let mut tr = Trace::create(out);
+    let mut rng = Rng::new(seed ^ 0x5151);
+    let res = dicts::resource_dir("gen", &[("char.def", "/repo/sudachi/tests/resources/char.def"), ("rewrite.def", "/repo/sudachi/tests/resources/rewrite.def")]);
+    let mut loaded = 0usize;
+    let mut run = 0usize;
+    for wi in 0..nworlds {
+        let d = GenDict::random(&mut rng, &gen::LETTERS, 10);
+        let sys = match catch(|| d.build()) {
+            Ok(Ok(b)) => b,
+            _ => continue,
+        };
+        let idmax = d.nl.min(d.nr);
+        let nusers = 1 + rng.below(3);
+        let mut users = Vec::new();
+        let mut sources: Vec<Vec<(String, i64, i64, i64)>> = Vec::new();
+        let mut ok = true;
+        for _ in 0..nusers {
+            let n = 1 + rng.below(5);
+            let mut rows = Vec::new();
+            let mut csv = String::new();
+            for _ in 0..n {
+                let len = 1 + rng.below(4);
+                // surfaces made of system keys and letters, so that the inner analysis has several morphemes
+                let mut key = String::new();
+                for _ in 0..len {
+                    if rng.chance(1, 2) { key.push_str(&d.words[rng.below(d.words.len())].key); } else { key.push(*rng.pick(&gen::LETTERS)); }
+                }
+                let cost: i64 = match rng.below(5) { 0 | 1 | 2 => -32768, 3 => rng.range(-3000, 9000), _ => 32767 };
+                let (lid, rid) = (rng.below(idmax) as i64, rng.below(idmax) as i64);
+                csv.push_str(&format!("{k},{l},{r},{c},{k},{pos},ヨミ,{k},*,A,*,*,*,*\n", k = key, l = lid, r = rid, c = cost, pos = gen::POS[rng.below(gen::POS.len())]));
+                rows.push((key, lid, rid, cost));
+            }
+            match catch(std::panic::AssertUnwindSafe(|| dicts::build_user(&sys, csv.as_bytes()))) {
+                Ok(Ok(b)) => { users.push(b); sources.push(rows); }
+                _ => { ok = false; break; }
+            }
+        }
+        if !ok { continue; }
+        let cfg = format!(r#"{{"characterDefinitionFile":"char.def","inputTextPlugin":[],"oovProviderPlugin":[{}],"pathRewritePlugin":[]}}"#, d.simple_oov_json());
+        sudachi::verif::install();
+        let r = catch(std::panic::AssertUnwindSafe(|| dicts::load(&cfg, &res, sys.clone(), users.clone())));
+        let events = sudachi::verif::take();
+        sudachi::verif::uninstall();
+        run += 1;
+        let mut m = d.meta();
+        m["ev"] = json!("world");
+        m["run"] = json!(run);
+        m["name"] = json!(format!("ucost{}", wi));
+        m["users"] = json!(sources.iter().map(|rows| rows.iter().map(|(k, l, r, c)| json!({"key": cps(k), "lid": l, "rid": r, "cost": c})).collect::<Vec<_>>()).collect::<Vec<_>>());
+        tr.emit(m);
+        let dict = match r {
+            Ok(Ok(x)) => x,
+            Ok(Err(e)) => { tr.emit(json!({"ev": "load", "run": run, "res": "err", "msg": format!("{:?}", e)})); continue; }
+            Err(msg) => { tr.emit(json!({"ev": "load", "run": run, "res": "panic", "msg": msg})); continue; }
+        };
+        loaded += 1;
+        for mut e in events {
+            e["run"] = json!(run);
+            tr.emit(e);
+        }
+        tr.emit(json!({"ev": "load", "run": run, "res": "ok"}));
+        for (ui, rows) in sources.iter().enumerate() {
+            for wi in 0..rows.len() {
+                let (l, r, c) = dict.lexicon().get_word_param(WordId::new((ui + 1) as u8, wi as u32));
+                tr.emit(json!({"ev": "final", "run": run, "dic": ui + 1, "word": wi, "lid": l, "rid": r, "cost": c}));
+            }
+        }
+    }
+    let n = tr.finish();
+    println!("{}", json!({"events": n, "worlds": loaded}));
+    0
+}
